@@ -75,7 +75,10 @@ var leadCounter int
 
 func runMutant(id, mut string, toks []PTok) Mutant {
 	leadCounter++
-	lead := leads[leadCounter%len(leads)]
+	return runMutantLead(id, mut, toks, leads[leadCounter%len(leads)])
+}
+
+func runMutantLead(id, mut string, toks []PTok, lead string) Mutant {
 	ts := make([]PTok, len(toks))
 	copy(ts, toks)
 	for i := range ts {
@@ -117,6 +120,8 @@ func cmdSyntaxMutants(args []string) error {
 	in := fs.String("in", "gen_specs.ndjson", "")
 	out := fs.String("out", "mutants.ndjson", "")
 	shard := fs.String("shard", "0/1", "i/n")
+	longSpecs := fs.Int("long-specs", 1, "how many of the first specifications also get long variants")
+	longSizes := fs.Int("long-sizes", 1, "1: around 4096 bytes, 2: also around 8192 bytes")
 	if err := fs.Parse(args); err != nil {
 		return err
 	}
@@ -146,6 +151,36 @@ func cmdSyntaxMutants(args []string) error {
 		if err := emit("orig", toks); err != nil {
 			return err
 		}
+		// long texts: the same specification behind enough filler rules to pass 4096 (8192) bytes, every alignment of
+		// the last declarations against those sizes, with a mutation among the last tokens - an error far into a long
+		// file must be reported like one in a short file
+		if n <= *longSpecs && len(toks) >= 6 {
+			for _, fill := range longFills(*longSizes) {
+				var long []PTok
+				long = append(long, toks[:3]...) // grammar name ;
+				for k := 0; k < fill; k++ {
+					long = append(long, PTok{K: "IDENT", Src: fmt.Sprintf("r%04d", k), Lx: fmt.Sprintf("r%04d", k)}, punct("="), PTok{K: "STRING", Src: `"a"`, Lx: "a"}, punct(";"))
+				}
+				long = append(long, toks[3:]...)
+				for pad := 0; pad <= 40; pad++ {
+					lead := strings.Repeat(" ", pad)
+					last := len(long) - 1
+					cases := map[string][]PTok{
+						"ok":        long,
+						"del-last":  long[:last],
+						"rep-last":  append(append([]PTok{}, long[:last]...), sampleTok("=")),
+						"ins-3":     append(append(append([]PTok{}, long[:last-3]...), sampleTok(")")), long[last-3:]...),
+						"trunc-2":   long[:last-2],
+						"rep-5":     append(append(append([]PTok{}, long[:last-5]...), sampleTok("=")), long[last-4:]...),
+					}
+					for _, mut := range []string{"ok", "del-last", "rep-last", "ins-3", "trunc-2", "rep-5"} {
+						if err := w.Write(runMutantLead(fmt.Sprintf("%s-%d/long%d/pad%d/%s", s.Fam, n, fill, pad, mut), fmt.Sprintf("long%d/pad%d/%s", fill, pad, mut), cases[mut], lead)); err != nil {
+							return err
+						}
+					}
+				}
+			}
+		}
 		for i := range toks {
 			del := append(append([]PTok{}, toks[:i]...), toks[i+1:]...)
 			if err := emit(fmt.Sprintf("del@%d", i), del); err != nil {
@@ -174,6 +209,14 @@ func cmdSyntaxMutants(args []string) error {
 		return err
 	}
 	return w.Close()
+}
+
+// number of filler rules (13 bytes each: `rNNNN = "a" ;` and a line end) that bring a text just below 4096 / 8192 bytes
+func longFills(sizes int) []int {
+	if sizes >= 2 {
+		return []int{312, 627}
+	}
+	return []int{312}
 }
 
 func init() {
